@@ -1033,6 +1033,10 @@ class Evaluator:
         """a module-level `NAME = expression` evaluated in the module scope (memoised per evaluator; a fresh copy of
         mutable values is handed out so that one analysed call cannot leak stores into another)"""
         cache = self.__dict__.setdefault("_modconst", {})
+        dotted = "%s.%s" % (self.mod.rel[:-3].replace("/", "."), name)
+        if name not in cache and dotted in (self.import_values or {}):
+            # the table a check models for importers of this module is the same table inside the module
+            return self.import_values[dotted]
         if name not in cache:
             if name in self.__dict__.setdefault("_modconst_busy", set()):
                 raise AnalysisError("E3: module constant %s is defined in terms of itself" % name)
@@ -1902,6 +1906,47 @@ class Evaluator:
                 raise AnalysisError("E3: match.%s: %s (line %d)" % (attr, e_, node.lineno))
         if attr == "dot" and len(args) == 1:
             return self.np_dot(base, args[0], node)
+        if isinstance(base, list) and not kwargs:
+            # the list protocol (mutating methods act on the value itself: aliases see the change, as in Python)
+            if attr == "append" and len(args) == 1:
+                base.append(args[0])
+                return None
+            if attr == "extend" and len(args) == 1:
+                base.extend(self.as_sequence(args[0], node))
+                return None
+            if attr == "reverse" and not args:
+                base.reverse()
+                return None
+            if attr == "insert" and len(args) == 2 and const_int(args[0]) is not None:
+                base.insert(const_int(args[0]), args[1])
+                return None
+            if attr == "pop" and len(args) <= 1 and all(const_int(a_) is not None for a_ in args):
+                if not base:
+                    raise AnalysisError("E3: pop from an empty list (line %d)" % node.lineno)
+                return base.pop(*[const_int(a_) for a_ in args])
+            if attr == "clear" and not args:
+                del base[:]
+                return None
+            if attr == "copy" and not args:
+                return list(base)
+            if attr in ("index", "count", "remove") and len(args) == 1:
+                keys = [vkey(x_) for x_ in base]
+                k_ = vkey(args[0])
+                if attr == "count":
+                    return Rat.const(keys.count(k_))
+                if k_ not in keys:
+                    raise AnalysisError("E3: list.%s of a value that is not in the list (line %d)" % (attr, node.lineno))
+                if attr == "index":
+                    return Rat.const(keys.index(k_))
+                del base[keys.index(k_)]
+                return None
+            if attr == "sort" and not args:
+                ks_ = [x_ if isinstance(x_, str) else (scalar(x_).const_value() if isinstance(x_, (Rat, int, float)) and not isinstance(x_, bool) and scalar(x_).is_const() else None) for x_ in base]
+                if any(k_ is None for k_ in ks_) or len({type(k_) is str for k_ in ks_}) > 1:
+                    raise AnalysisError("E3: sort of a list whose order is not decided (line %d)" % node.lineno)
+                order_ = sorted(range(len(base)), key=lambda i_: ks_[i_])
+                base[:] = [base[i_] for i_ in order_]
+                return None
         if attr == "get" and isinstance(base, dict) and 1 <= len(args) <= 2:
             k = dict_key(args[0])
             if isinstance(k, Rat):
@@ -1969,6 +2014,13 @@ class Evaluator:
                 return base.join(seq)
         if attr == "replace" and isinstance(base, str) and len(args) == 2 and all(isinstance(x, str) for x in args):
             return base.replace(args[0], args[1])
+        if attr == "setflags" and isinstance(base, (Arr, Opaque)):
+            return None            # write protection: no value changes
+        if isinstance(base, (list, dict, tuple, str, set)) and not is_tagged(base):
+            # a method of a built-in container that is not modelled: an opaque value here would silently drop its effect
+            raise AnalysisError("E3: method `%s` of a %s is not modelled (line %d)" % (attr, type(base).__name__, getattr(node, "lineno", 0)))
+        if attr in ("sort", "fill", "resize", "put", "itemset", "partition", "byteswap", "setfield") and isinstance(base, (Arr, Opaque)):
+            raise AnalysisError("E3: in-place array method `%s` is not modelled (line %d)" % (attr, getattr(node, "lineno", 0)))
         return Opaque("%s.%s(%s)" % (vkey(base), attr, ",".join(vkey(a) for a in args)))
 
     def np_transpose(self, a, node):
